@@ -51,6 +51,23 @@ Theorem C20_requeue_never_dropped : forall c s, cfg_ok c -> reachable c s -> n_d
 Proof. exact requeue_never_dropped. Qed.
 Print Assumptions C20_requeue_never_dropped.
 
+(* the configuration the theorems are about IS the compiled code's: coq/Gen/Consts.v is regenerated on every run from
+   the constants and the queue constructor of the code under test (harness/cmd/gen: MaxWaitingTaskNum,
+   cap(NewWalletTaskChan(0).C), cap(NewWalletTaskChan(10).C)). The busy threshold of the model is the code's, the
+   repaired configuration's capacity is the constructor's, and [cfg_ok] (one slot more than the threshold: room for
+   the worker's own re-queue of the task it is running) holds of what the constructor really allocates, for few
+   and for many wallets.  A change of the threshold or of the constructor's arithmetic breaks this obligation. *)
+Require MW.Gen.Consts.
+From Coq Require ZArith.
+Theorem C20_task_queue_config_is_the_code :
+  (BinInt.Z.of_nat busy_threshold = MW.Gen.Consts.MaxWaitingTaskNum) /\
+  (BinInt.Z.of_nat (cap cfg_repaired) = MW.Gen.Consts.TaskQueueCap0) /\
+  cfg_ok {| f1fix := true; nilfix := true; qcap := 1024; cap := BinInt.Z.to_nat MW.Gen.Consts.TaskQueueCap0 |} /\
+  cfg_ok {| f1fix := true; nilfix := true; qcap := 1024; cap := BinInt.Z.to_nat MW.Gen.Consts.TaskQueueCap10 |} /\
+  BinInt.Z.le MW.Gen.Consts.TaskQueueCap0 MW.Gen.Consts.TaskQueueCap10.
+Proof. vm_compute. repeat split; try (intro; discriminate); repeat constructor. Qed.
+Print Assumptions C20_task_queue_config_is_the_code.
+
 (* what the hand-shake is for: block processing and a background update never overlap *)
 Theorem C20_handshake_exclusion : forall c s,
   cfg_ok c -> reachable c s -> ~ (hpc s = Hblk /\ in_cs (kpc s) = true).
